@@ -260,14 +260,12 @@ def replay_path(args):
     if not out and "C16" in props and any(o == "gb" for o, _ in history_of(path)):
         # A group stays what it is when the groupby object it came from is dropped (a temporary expression, `del`): an
         # itertools group keeps its parent alive and yields the rest of its run.
-        import gc  # noqa: PLC0415
         fresh, twin2 = GBSys(data, keyfl), GBSys(data, keyfl, sync=True)
         for op, g, *_ in (e["a"] for e in path):
             fresh.op(op, g)
             twin2.op(op, g)
         if fresh.groups and len(fresh.groups) == len(twin2.groups):
-            fresh.gb = twin2.gb = None
-            gc.collect()
+            fresh.gb = twin2.gb = None      # (reference counting frees it at once; no collection needed)
             newest = len(fresh.groups)
             for _ in range(len(data) + 2):
                 r1, r2 = fresh.op("grp", newest), twin2.op("grp", newest)
